@@ -9,7 +9,7 @@ import os
 from . import core
 from .core import MachineryError
 
-PROGS = ["pool", "cas", "strand", "cas2", "timed", "coro", "cas3"]
+PROGS = ["pool", "cas", "strand", "cas2", "timed", "coro", "cas3", "tie"]
 
 
 def run_repro(exe, seed, fw, width_unused, progs, extra=(), timeout=300):
